@@ -140,9 +140,38 @@ UNDERLINE_LIKE = ['> foo\n===\n> ---\n', '- foo\n===\n  ---\n', 'Foo\n    ---\n'
                   '-\n  - - -\n', '*\n  ***\n\n  x\n', '- a\n-\n  ---\n', '-\n  -\n    - -\n', '> -\n>   -- -\n', '1. -\n     - -\n']
 
 
+# blank lines made of white space other than space / tab (the readers take them for blank with str.strip(); the Markdown renderer's
+# BlankLine token must agree): between every pair of leaf / container blocks, at top level and inside a quote.  Left out: a list
+# BEFORE the odd line (ListItem's continuation pattern does not take such a line for blank - mechanism of the recorded finding
+# C04-unicode-whitespace - so the round trip fails there on the unchanged tree) and, for the same reason, list items as the container.
+ODD_BLOCKS = {'para': 'alpha beta\n', 'atx': '# head\n', 'fence': '```\ncode\n```\n', 'hr': '***\n', 'quote': '> q\n', 'list': '- a\n- b\n',
+              'html': '<div>\nx\n</div>\n', 'icode': '    code\n', 'setext': 't\n===\n', 'table': '| a | b |\n| --- | --- |\n| c | d |\n',
+              'def': '[r]: /u\n'}
+ODD_BLANKS = ['\x0c', '\xa0', '\u2003', '\x0b', ' \xa0 ', '\x1c', '\x1d', '\x85', '\u2028', '\u3000', '\x1f\t']
+
+
+def odd_blank_cases():
+    for a, ta in ODD_BLOCKS.items():
+        if a == 'list':
+            continue
+        for b, tb in ODD_BLOCKS.items():
+            for o in ODD_BLANKS:
+                x = ta + o + '\n' + tb
+                yield (a, b, o, 'top'), x
+                yield (a, b, o, 'quote'), ''.join('> ' + ln + '\n' for ln in x.split('\n')[:-1])
+
+
 def run(ctx):
     sz = SIZES[ctx.tier]
     k = 0
+    for i, (key, x) in enumerate(odd_blank_cases()):
+        if i % ctx.nshards == ctx.shard:
+            res = roundtrip(ctx, x, False, {})
+            if res == []:
+                ctx.count('held', 'odd-blank-separator')
+            for clause, detail in (res or []):
+                ctx.violation(clause, 'blank line of odd white space between %s and %s (%s)' % (key[0], key[1], key[3]),
+                              {'kind': 'odd-blank', 'index': i}, **detail)
     for i, w in enumerate(UNDERLINE_LIKE):
         if i % ctx.nshards == ctx.shard:
             for nw in (False, True):
@@ -197,6 +226,10 @@ def replay(ctx, case):
         check_spec(ctx, ex, case['normalize_whitespace'])
     elif case['kind'] == 'generated':
         check_generated(ctx, case['seed'], case['profile'], case['normalize_whitespace'])
+    elif case['kind'] == 'odd-blank':
+        key, x = list(odd_blank_cases())[case['index']]
+        for clause, detail in (roundtrip(ctx, x, False, {}) or []):
+            ctx.violation(clause, 'blank line of odd white space between %s and %s (%s)' % (key[0], key[1], key[3]), case, **detail)
     elif case['kind'] == 'underline-like':
         for clause, detail in (roundtrip(ctx, UNDERLINE_LIKE[case['index']], case['normalize_whitespace'], {}) or []):
             ctx.violation(clause, 'underline-like content line', case, **detail)
